@@ -57,6 +57,9 @@ impl SequenceNumberCounter {
     /// This should only be used when creating a snapshot.
     #[must_use]
     pub fn get(&self) -> SeqNo {
+        #[cfg(feature = "verif")]
+        crate::verif::yield_point("seqno.get");
+
         self.0.load(Acquire)
     }
 
@@ -64,6 +67,9 @@ impl SequenceNumberCounter {
     #[must_use]
     #[allow(clippy::missing_panics_doc, reason = "we should never run out of u64s")]
     pub fn next(&self) -> SeqNo {
+        #[cfg(feature = "verif")]
+        crate::verif::yield_point("seqno.next");
+
         let seqno = self.0.fetch_add(1, AcqRel);
 
         // The MSB is reserved for transactions.
@@ -76,11 +82,17 @@ impl SequenceNumberCounter {
 
     /// Sets the sequence number.
     pub fn set(&self, seqno: SeqNo) {
+        #[cfg(feature = "verif")]
+        crate::verif::yield_point("seqno.set");
+
         self.0.store(seqno, Release);
     }
 
     /// Maximizes the sequence number.
     pub fn fetch_max(&self, seqno: SeqNo) {
+        #[cfg(feature = "verif")]
+        crate::verif::yield_point("seqno.fetch_max");
+
         self.0.fetch_max(seqno, AcqRel);
     }
 }
